@@ -198,8 +198,14 @@ impl Scope {
             } => {
                 if *calls_until_ext_bitfield == 0 {
                     if bits.with_read_position_at(*ext_bit_pos, |b| b.read_bit())? {
-                        let read_number_of_ext_fields =
-                            bits.read_normally_small_length()? as usize + 1;
+                        let read_number_of_ext_fields = usize::try_from(
+                            bits.read_normally_small_length()?,
+                        )
+                        .ok()
+                        .and_then(|n| n.checked_add(1))
+                        // one presence flag (bit) is transmitted per extension addition
+                        .filter(|n| *n <= bits.remaining())
+                        .ok_or(ErrorKind::EndOfStream)?;
                         if read_number_of_ext_fields > *number_of_ext_fields {
                             #[cfg(feature = "descriptive-deserialize-errors")]
                             descriptions.push(ScopeDescription::warning(
@@ -907,10 +913,11 @@ impl<B: ScopedBitRead> UperReader<B> {
                 if !self.bits.with_read_position_at(bit_pos, |b| b.read_bit())? {
                     return Ok(());
                 }
-                let count = self.bits.read_normally_small_length()? as usize + 1;
-                if self.bits.remaining() < count {
-                    return Err(ErrorKind::EndOfStream.into());
-                }
+                let count = usize::try_from(self.bits.read_normally_small_length()?)
+                    .ok()
+                    .and_then(|n| n.checked_add(1))
+                    .filter(|n| *n <= self.bits.remaining())
+                    .ok_or(ErrorKind::EndOfStream)?;
                 let flags = self.bits.pos()..self.bits.pos() + count;
                 self.bits.set_pos(flags.end);
                 flags
